@@ -1440,6 +1440,43 @@ class EStream(Engine):
             return out.getvalue()
         return None
 
+    def ev_ctorpos(self, ev):
+        """cls(<this content>, pos=k): k in [-len, len] gives a stream standing at k (counted from the end when negative); anything
+        else is refused (CreationError) - a stream is never born with pos outside [0, len]."""
+        incs = []
+        C = getattr(self.Bm, ev.get('cls') if ev.get('cls') in ('ConstBitStream', 'BitStream') else 'ConstBitStream')
+        k = ev.get('pos')
+        if not isinstance(k, int) or isinstance(k, bool):
+            return {'skip': 'pos is not an int'}, incs
+        B, L, p = self.B, len(self.B), self.p
+        src = ev.get('src')
+        if src == 'self':
+            st, x = call(lambda: C(self.s, pos=k))
+        elif src == 'bytes' and L % 8 == 0:
+            st, x = call(lambda: C(bytes=int(B, 2).to_bytes(L // 8, 'big') if L else b'', pos=k))
+        elif src == 'str' and L:
+            st, x = call(lambda: C('0b' + B, pos=k))
+        else:
+            st, x = call(lambda: C(bin=B, pos=k))
+        valid = -L <= k <= L
+        if valid:
+            want = k + L if k < 0 else k
+            if st != 'ok':
+                incs.append(self.inc(f'ctor|pos-in-range|raised:{kernel.exc_name(x)}', pos=k, len=L, src=src))
+            elif kernel.get_pos(x) != want or call(lambda: x.bin) != ('ok', B):
+                incs.append(self.inc('ctor|pos-in-range|wrong-initial-pos-or-content', pos=k, len=L, got_pos=kernel.get_pos(x), want=want, src=src))
+            self.probe('ctor with explicit pos')
+        else:
+            if st == 'ok':
+                gp = kernel.get_pos(x)
+                disc = 'pos-out-of-range' if not (isinstance(gp, int) and 0 <= gp <= L) else 'should-raise'
+                incs.append(self.inc(f'ctor|pos-outside|{disc}', pos=k, len=L, got_pos=canon(gp), src=src))
+            elif not kernel.exc_is(x, 'ValueError'):
+                incs.append(self.inc(f'ctor|pos-outside|wrong-exception:{kernel.exc_name(x)}', pos=k, len=L, src=src))
+            self.probe('ctor with pos out of range')
+        self._post(incs, 'ctor', 'pos-keyword', (p,))
+        return {'st': st}, incs
+
     def ev_query(self, ev):
         """pos never affects a non-stream result: the same call on an equal stream at pos 0 gives the same answer."""
         incs = []
@@ -1717,6 +1754,10 @@ class EStream(Engine):
 
     def _g_new(self, g):
         L = len(self.B)
+        if g.chance(0.08):
+            # a new stream created with an explicit initial position (constructor keyword)
+            return {'k': 'ctorpos', 'pos': g.wpick([(g.int(0, L), 4), (L, 1), (L + 1, 2), (-1, 1), (-L, 1), (-L - 1, 2), (0, 1), (g.int(-L - 3, L + 9), 2)]),
+                    'src': g.pick(['bin', 'self', 'bytes', 'str']), 'cls': g.pick(['ConstBitStream', 'BitStream'])}
         op = g.pick(self.NEW_OPS)
         ev = {'k': 'new', 'op': op}
         if op == 'slice':
